@@ -51,6 +51,31 @@ theorem C01_unmatched_inert (s : St) (f : Frame) (hd : s.drv = .running) (hf : s
     step s .drvResp = some ({ s with pos := s.pos + 1 }, .none) := by
   simp [step, hd, hf, h1, h2]
 
+/-- A response under the ID of a registered single-result operation is handed to exactly that
+operation (its reply slot is filled if it is still empty) and to nobody else: every other operation
+and every search channel is untouched.  With `C01_classification` (search IDs) and
+`C01_unmatched_inert` (no registration) this is the complete case analysis of what the driver does
+with a frame: it goes to the operation registered under its ID, or to nobody. -/
+theorem C01_single_delivery (s : St) (f : Frame) (i : Nat) (hd : s.drv = .running)
+    (hf : s.srvLog[s.pos]? = some f) (h1 : lookup s.searchmap f.id = none) (h2 : lookup s.resultmap f.id = some i) :
+    ∃ s', step s .drvResp = some (s', .none) ∧ s'.chans = s.chans ∧ s'.searchmap = s.searchmap ∧
+      (∀ j, j ≠ i → s'.ops[j]? = s.ops[j]?) ∧
+      (∀ o, s.ops[i]? = some o → s'.ops[i]? = some (if o.mail = .empty then { o with mail := .frame f } else o)) := by
+  have e : step s .drvResp = some (({ s with
+      pos := s.pos + 1
+      resultmap := erase s.resultmap f.id
+      ops := modifyOp s.ops i (fun o => if o.mail = .empty then { o with mail := .frame f } else o)
+      inUse := eraseId s.inUse f.id } : St), .none) := by
+    simp [step, hd, hf, h1, h2]
+  refine ⟨_, e, rfl, rfl, ?_, ?_⟩
+  · intro j hji
+    show (modifyOp s.ops i _)[j]? = _
+    rw [modifyOp_get, if_neg hji]
+  · intro o ho
+    show (modifyOp s.ops i _)[i]? = _
+    rw [modifyOp_get, if_pos rfl, ho]
+    rfl
+
 /-- For a search ID the item kind is decided by the protocolOp number of the frame: entries (4),
 intermediate responses (25) and references (19) are handed on as items and the search stays
 registered; 5 is the final result, after which the routing entry and the ID are released. -/
